@@ -19,13 +19,23 @@ UNB = ["unbound-variable", "unbound"]
 kf("KF-stage-mem-noload", ["C01", "C04"],
    "stage_mem emits no load when the block never reads the window, but stores the whole window back: cells the block does not write receive undefined values",
    "LoopIR_scheduling.DoStageMem (`if actualR and not WShadow`)",
-   {"op": ["stage_mem", "std.auto_stage_mem"], "kind": ["value-mismatch", "uninit"], "cause": RE(r"^result-undefined,staged-copy-only-written$")},
+   {"op": ["stage_mem", "std.auto_stage_mem"], "kind": ["value-mismatch", "uninit"], "cause": RE(r"^result-undefined,staged-copy-only-written(,alloc-extent-uses-iter)?$")},
    "seed loops/l2: stage_mem(body of j-loop, 'b[0:m, 0:n]', 'b_stg')")
 kf("KF-sink-alloc-else", ["C01", "C04"],
    "sink_alloc into an if with an else branch gives the else copy of the allocation a fresh Sym while the else body keeps using the original one (unbound); the golden file test_sink_alloc_when_if_has_else.txt pins this output (`a_1[1] = 1.0`), so it cannot be repaired without editing the suite",
    "LoopIR_scheduling.DoSinkAlloc (`else_alloc = Alpha_Rename([alloc_stmt])`)",
    {"op": ["sink_alloc"], "kind": UNB, "cause": RE(r"^unbound-alloc,use:[\w-]+(,block-has-binder)?,scope-has-else$")},
    "seed guard/alloc_else: sink_alloc(`t: f32`)")
+kf("KF-stage-mem-alias", ["C01", "C04"],
+   "stage_mem redirects the accesses that name the staged buffer but not accesses through a window statement of it declared before the block, so writes through the alias go to the original while later reads come from the stale staging copy",
+   "LoopIR_scheduling.DoStageMem (rewrites by buffer name only)",
+   {"op": ["stage_mem", "std.auto_stage_mem"], "kind": ["value-mismatch", "uninit"], "cause": RE(r"aliased-access-in-block")},
+   "seed alloc/unroll_buf_win: stage_mem(body[3:6], 't[0:2, 0:4]', 't_stg') with `w = t[1, 0:4]` declared before the block")
+kf("KF-divide-recompute-not-idempotent", ["C01", "C04"],
+   "divide_with_recompute re-executes overlapping iterations and only checks bounds: a body that reduces, calls, or reads a buffer it writes gives a different result when iterations are repeated",
+   "LoopIR_scheduling.DoDivideWithRecompute (no idempotence / dependence check)",
+   {"op": ["divide_with_recompute"], "kind": ["value-mismatch", "uninit", "config-mismatch"], "cause": RE(r"body-not-idempotent")},
+   "seed depgen/xw_xrm: divide_with_recompute(i, 'n / 2 + 1', 1, ['ro','ri']) with n = 5")
 kf("KF-add-loop-binder", ["C01", "C04"],
    "add_loop wraps an allocation / window statement in a new loop, ending its scope while later statements still use it",
    "LoopIR_scheduling.DoAddLoop (no check that the wrapped statement binds no name)",
